@@ -310,7 +310,10 @@ def progress_ob(prog, res, fi, loop, runs):
         # available; use the recorded loop-iter snapshots
         snaps = [p.events[i].data.get('snap') for i in iters]
         ends = p.events[iters[-1]:]
-        for a, bsnap in zip(snaps, snaps[1:] + [p_end_snapshot(p, loop)]):
+        # the state after the last iteration matters only when the loop would go on (the path was cut at the unrolling bound):
+        # an iteration after which the condition is false needs no progress
+        cut = p.outcome == 'abandon'
+        for a, bsnap in zip(snaps, snaps[1:] + ([p_end_snapshot(p, loop)] if cut else [])):
             if a is None or bsnap is None:
                 continue
             prog_found = False
